@@ -6,6 +6,18 @@ ALL = ['C%02d' % i for i in range(1, 21)]
 
 # id -> (engine, technique, level text, level note, design ref)
 CLAIMED = {
+ 'C02': ('E4-enumerators', 'bounded-exhaustive enumeration of line-kind sequences (32 kinds, length <= L) plus random longer sequences, and coverage-guided fuzzing, both under an escape-detecting oracle (intercepted exit, fd-2 diagnostics, empty tree)',
+         'Every sequence of up to L line kinds (quick L=3: 33,824 documents; thorough L=4) and random sequences of length 5..12 go through all 7 writers in MMD and compatibility mode; a libFuzzer target covers arbitrary documents. A conversion that calls exit(), prints an unknown-token / parse-failed diagnostic, yields an empty tree or loses a leading plain line is a violation. The enumerated core is exhaustive for its bound; the rest is exploration.',
+         'Trusted: --wrap=exit interception, fd-2 capture, one representative spelling per line kind.',
+         'DESIGN.md section 5, C02'),
+ 'C15': ('E1-libfuzzer', 'coverage-guided fuzzing with an in-target tree-invariant walker (I1-I7) after parse, sub-string parse and each export; pool on and off',
+         'Inputs mutated from the corpus are parsed (whole string or in-range sub-string) and exported through any or all of the 7 writers; after each step an iterative walker checks root shape/span, spans inside the source, sibling links, sibling order, mate symmetry, finiteness and type range. Three enum-range relations are evaluated once. Held on everything executed.',
+         'Trusted: ASan/UBSan/libFuzzer; containment of children in parents and tail pointers are deliberately not asserted.',
+         'DESIGN.md section 5, C15'),
+ 'C16': ('E1-libfuzzer', 'coverage-guided fuzzing over a total bytes->valid-UTF-8 mapping with an independent strict UTF-8 validator as oracle',
+         'Every fuzz input denotes a valid UTF-8 document rich in code points whose bytes the lexer treats specially; HTML, LaTeX, Beamer, Memoir, FODT (full and body) and OPML outputs and the text-returning side APIs must validate under a strict decoder written for the harness. Held on everything executed.',
+         'Trusted: the harness validator (rejects overlongs, surrogates, >U+10FFFF, truncation); the target first validates its own input.',
+         'DESIGN.md section 5, C16'),
  'C05': ('E3-hypothesis', 'stateful property testing: Hypothesis-generated conversion histories in one process, differential against the same call made first in a fresh process',
          'Histories of up to 12 conversions (12 formats, 10 extension sets, 7 languages, string/DString/to_data/reused-engine shapes, in-place source replacement, random-anchor steps as pure history, pool bracket per step or per history) run in one sanitised worker that is restarted for every history; every compared step must equal the bytes a fresh process gives first, and the caller\'s buffer must be unchanged. Held on everything generated.',
          'Trusted: Hypothesis, the plain build as reference executor, lib/pkg.py mask for declared-random package fields.',
